@@ -200,7 +200,8 @@ def _run_case(case: dict, judges: list[str], opts: dict):
                 qs.append(f"P {rid} {k} {opts.get('fuel', FUEL)} {cps(text)}")
                 pts.append((text, k))
         ms = _drv.ask_many(qs)
-        for (text, k), m in zip(pts, ms):
+        mis = _drv.ask_many(["PI" + q[1:] for q in qs]) if "TIE" in judges else [None] * len(qs)
+        for (text, k), m, mi in zip(pts, ms, mis):
             out["cases"] += 1
             if m in ("FUEL", "ERR") or m.startswith("DRIVER-ERROR"):
                 if m.startswith("DRIVER-ERROR"):
@@ -209,6 +210,8 @@ def _run_case(case: dict, judges: list[str], opts: dict):
                 continue
             res = {}
             lines = {"M": m}
+            if mi is not None:
+                lines["MI"] = mi
             for mode in modes:
                 if mode in b.err:
                     continue
@@ -266,6 +269,8 @@ def judge(judges, lines, res, case, rule, text, k, names_ok, tags_ok, rule_silen
         elif j == "TIE":
             if "I" in lines and lines["I"] != m:
                 v.append(("tie", "mode I differs from the model (tree, failure position or expected sets)"))
+            if "MI" in lines and lines["MI"] != m:
+                v.append(("tie", "the interpreter model (Interp.v) differs from the reference semantics (Spec.v)"))
             if "IG" in lines and impl.strip_sets(lines["IG"]) != impl.strip_sets(m):
                 v.append(("tie", "mode IG differs from the model (tree or failure position)"))
         elif j == "C07":
